@@ -736,5 +736,75 @@ pub fn families() -> Vec<Box<dyn Family>> {
                 }
             },
         ),
+
+        family(
+            "deep_many_ops",
+            "STACK DEPTH: caller-built hunks with 100000..300000 consecutive EMPTY ops (zero-length Delete / Insert / Equal / one-sided Replace) in front of, between and behind real ops, and hunks / whole diffs with 100000+ one-item ops: UnifiedDiffHunk::iter_changes, TextDiff::iter_all_changes and DiffOp::iter_changes must deliver exactly the changes of the non-empty ops; run with the stack of an ordinary thread in the small-stack stage (an unoptimised build)",
+            false,
+            1,
+            |cfg| if cfg.tiny { 1 } else { cfg.tier.pick(6, 18) },
+            |idx, cfg, out| {
+                let mut rng = Rng::for_case(cfg.seed, "c13.deep", idx);
+                let n_empty = if cfg.tiny { 10 } else { rng.range(100_000, 300_000) };
+                let sa: Vec<String> = (0..6).map(|i| format!("old{}\n", i)).collect();
+                let sb: Vec<String> = (0..6).map(|i| format!("new{}\n", i)).collect();
+                let ra: Vec<&str> = sa.iter().map(|s| s.as_str()).collect();
+                let rb: Vec<&str> = sb.iter().map(|s| s.as_str()).collect();
+                let mut ops: Vec<DiffOp> = Vec::with_capacity(n_empty + 8);
+                let mut expect = 0usize;
+                let real = [make_op(3, 0, 2, 0, 1), make_op(1, 2, 2, 1, 0), make_op(2, 4, 0, 1, 3), make_op(0, 4, 2, 4, 2)];
+                let mut push_real = |ops: &mut Vec<DiffOp>, k: usize, expect: &mut usize| {
+                    let op = real[k % 4];
+                    *expect += if op.tag() == similar::DiffTag::Equal { op.old_range().len() } else { op.old_range().len() + op.new_range().len() };
+                    ops.push(op);
+                };
+                if idx % 3 != 0 {
+                    push_real(&mut ops, 0, &mut expect);
+                }
+                if idx % 2 == 0 {
+                    for i in 0..n_empty {
+                        ops.push(make_op(1 + (i + idx as usize) % 3, 2, 0, 1, 0));
+                        if i == n_empty / 2 {
+                            push_real(&mut ops, 1, &mut expect);
+                        }
+                    }
+                } else {
+                    // no empty ops: a very long list of one-item ops instead
+                    for i in 0..n_empty {
+                        let op = make_op(1 + i % 2, i % 6, 1, i % 6, 1);
+                        expect += 1;
+                        ops.push(op);
+                    }
+                }
+                push_real(&mut ops, 2, &mut expect);
+                push_real(&mut ops, 3, &mut expect);
+                out.sample(|| format!("{} ops ({} of them empty), {} changes expected", ops.len(), if idx % 2 == 0 { n_empty } else { 0 }, expect));
+                out.nontrivial(&("deep", ops.len(), idx));
+                out.count("deep_cases");
+                out.eval();
+                let r = guard(|| {
+                    let d = TextDiff::from_slices(&ra, &rb);
+                    let h = similar::udiff::UnifiedDiffHunk::new(ops.clone(), &d, true);
+                    let mut n = 0usize;
+                    let mut it = h.iter_changes();
+                    #[allow(clippy::while_let_on_iterator)]
+                    while let Some(_c) = it.next() {
+                        n += 1;
+                    }
+                    let n_fold = h.iter_changes().count();
+                    let per_op: usize = ops.iter().map(|op| op.iter_changes(&ra[..], &rb[..]).count()).sum();
+                    (n, n_fold, per_op)
+                });
+                match r {
+                    Err(p) => out.violation("panic", format!("iterating a hunk of {} ops panicked: {}", ops.len(), p)),
+                    Ok((n, n_fold, per_op)) => {
+                        out.count_n("changes_observed", n as u64);
+                        if n != expect || n_fold != expect || per_op != expect {
+                            out.violation("expand.hunk_iter_changes", format!("a caller-built hunk of {} ops expands to {} changes by next(), {} by count(), {} op by op; expected {}", ops.len(), n, n_fold, per_op, expect));
+                        }
+                    }
+                }
+            },
+        ),
     ]
 }
